@@ -19,8 +19,8 @@ Import ListNotations.
 
 (* reduce the projections of an updated state, and nothing else *)
 Ltac sproj :=
-  cbn [s_cur s_rest s_mark s_term s_spos s_lp s_ln s_d s_started
-       upd_cur upd_d upd_level dec_level reset_level].
+  cbn [s_cur s_rest s_mark s_term s_spos s_lp s_ln s_d s_started s_depth
+       upd_cur upd_d upd_level upd_depth dec_level reset_level].
 
 Section Level.
 Variables (A G D C E : Type) (OPS : ops A G D C).
@@ -42,13 +42,16 @@ Definition cur_mark (s : pstate) : Prop :=
 Definition LInv (n : Z) (s : pstate) : Prop := lvl s = n /\ cur_mark s.
 Definition LInvE (n : Z) (s : pstate) : Prop := True.
 
-Lemma level_inv_closed : inv_closed OPS LInv LInvE (fun n => n + 1)%Z (fun _ => 0%Z).
+Lemma level_inv_closed :
+  inv_closed OPS LInv LInvE (fun n => n + 1)%Z (fun _ => 0%Z) (fun n => n).
 Proof.
   unfold LInv, LInvE, lvl, cur_mark. split; try (intros; exact I).
   - intros k s [H1 H2]. sproj. split; [ lia | exact H2 ].
   - intros k s [H1 H2]. sproj. split; [ lia | exact H2 ].
   - intros k s [H1 H2]. sproj. split; [ lia | exact H2 ].
   - intros k s s' [H1 H2] [H3 H4]. sproj. split; [ lia | exact H4 ].
+  - intros k s _ H. exact H.
+  - intros k s H. exact H.
   - intros k s [H1 H2]. cbn. auto.
   - intros k s c s'. unfold drain. destruct (d_drain OPS (s_d s)). intros [= _ <-] H. exact H.
   - intros k s [H1 H2]. unfold next.
@@ -79,6 +82,27 @@ Definition TypeStop (self : parsers) : Prop :=
 Lemma TypeStop_no_fuel : TypeStop (no_fuel A G D C E).
 Proof. split; intros; discriminate. Qed.
 
+Lemma nested_ok X site (f : pstate -> res X) s x s' :
+  nested site f s = Ok x s' ->
+  exists s2, f (upd_depth s (S (s_depth s))) = Ok x s2 /\ s' = upd_depth s2 (pred (s_depth s2)).
+Proof.
+  unfold nested. cbv zeta. destruct (_ <=? _); [ discriminate | ].
+  destruct (f _); try discriminate. intros [= <- <-]. eauto.
+Qed.
+
+Lemma type_or_none_body_stop self s t s' :
+  at_ident_paren s -> type_or_none_body OPS self s = Ok (Some t) s' -> cur_paren s'.
+Proof.
+  intros (p & name & a0 & a1 & g & r & Hc & Hr).
+  unfold type_or_none_body. rewrite Hc.
+  destruct (is_blank name); [ discriminate | ].
+  unfold qualified_ident, identifier. rewrite Hc.
+  unfold next. cbn [s_rest upd_cur]. rewrite Hr. cbn [bind].
+  unfold skipped, cur_is. cbn [s_cur tok_is]. cbn [bind].
+  change (op_eqb OParenLeft ODot) with false. change (op_eqb OParenLeft OBarackLeft) with false.
+  cbn [bind]. intros [= <- <-]. eexists. reflexivity.
+Qed.
+
 Lemma TypeStop_step self : TypeStop self -> TypeStop (step OPS self).
 Proof.
   intros [HT HTN]. split; cbn [step k_type k_type_or_none].
@@ -86,14 +110,8 @@ Proof.
     destruct (_ <=? _); [ discriminate | ]. cbn [bind].
     destruct (k_type_or_none self _) as [[t0|] s2| | |] eqn:Hk; cbn [bind]; try discriminate.
     intros [= <- <-]. eapply HTN in Hk; [ exact Hk | exact Hs ].
-  - intros s t s' (p & name & a0 & a1 & g & r & Hc & Hr).
-    unfold type_or_none_body. rewrite Hc.
-    destruct (is_blank name); [ discriminate | ].
-    unfold qualified_ident, identifier. rewrite Hc.
-    unfold next. cbn [s_rest upd_cur]. rewrite Hr. cbn [bind].
-    unfold skipped, cur_is. cbn [s_cur tok_is]. cbn [bind].
-    change (op_eqb OParenLeft ODot) with false. change (op_eqb OParenLeft OBarackLeft) with false.
-    cbn [bind]. intros [= <- <-]. eexists. reflexivity.
+  - intros s t s' Hs Hn. apply nested_ok in Hn as (s2 & Hf & ->).
+    apply type_or_none_body_stop in Hf; [ exact Hf | exact Hs ].
 Qed.
 
 (* ------------------------------------------------------------ the caught error *)
@@ -155,9 +173,9 @@ Lemma interface_loop_level self :
   forall fuel acc, lpres (interface_loop OPS self fuel acc).
 Proof.
   intros HT HG.
-  pose proof (L_parse_method_elem _ _ _ _ _ OPS _ _ _ _ _ level_inv_closed self HG) as Hme.
-  pose proof (L_parse_type_elem _ _ _ _ _ OPS _ _ _ _ _ level_inv_closed self HG) as Hte.
-  pose proof (L_semi_unless_brace _ _ _ _ _ OPS _ _ _ _ _ level_inv_closed) as Hsb.
+  pose proof (L_parse_method_elem _ _ _ _ _ OPS _ _ _ _ _ _ level_inv_closed self HG) as Hme.
+  pose proof (L_parse_type_elem _ _ _ _ _ OPS _ _ _ _ _ _ level_inv_closed self HG) as Hte.
+  pose proof (L_semi_unless_brace _ _ _ _ _ OPS _ _ _ _ _ _ level_inv_closed) as Hsb.
   pose proof (ic_goback level_inv_closed) as Hgb.
   induction fuel as [|fuel IH]; intros acc k s H; [ exact I | ].
   cbn [interface_loop]. hide_nats. cbv zeta.
@@ -189,7 +207,7 @@ Qed.
 
 Theorem level_Good d : Good LInv LInvE (parsers_at OPS d).
 Proof.
-  apply (Good_parsers_at _ _ _ _ _ OPS _ _ _ _ _ level_inv_closed TypeStop).
+  apply (Good_parsers_at _ _ _ _ _ OPS _ _ _ _ _ _ level_inv_closed TypeStop).
   - exact TypeStop_no_fuel.
   - intros self H _. apply TypeStop_step, H.
   - intros self HT HG. apply interface_loop_level; assumption.
@@ -295,7 +313,7 @@ Arguments TypeStop {A G D C E} self.
 Module LevelWitness.
 
 Definition tops : ops nat unit unit unit :=
-  {| d_next := fun d _ _ => d; d_goback := fun d => d; d_drain := fun d => (tt, d);
+  {| d_next := fun d _ _ _ => d; d_goback := fun d => d; d_drain := fun d => (tt, d);
      d_line_end := fun d _ g _ c => (c, g, d); c_empty := tt; a_plus2 := fun a => a + 2 |}.
 Fixpoint stream_from (n : nat) (l : list token) : list (selem nat unit) :=
   match l with [] => [] | t :: r => SE n (S n) t tt :: stream_from (S n) r end.
